@@ -110,7 +110,7 @@ var containerTags = []string{"textarea", "title", "pre", "option", "td", "li", "
 // element, no attribute) and the canary are asserted for them.
 var rawTextTags = map[string]bool{"xmp": true, "iframe": true, "noembed": true, "noframes": true}
 
-var sinks = []string{"in:textarea", "in:title", "in:pre", "in:option", "in:td", "in:li", "in:button", "in:h1", "in:a", "in:label", "in:code", "in:summary", "in:noscript", "in:xmp", "in:iframe", "in:noembed", "in:noframes", "nsattr", "text", "vtext", "attr", "bound", "vbind", "class", "style", "loop", "loopattr", "loopchild", "incstatic", "incbound", "incattr", "inctplroot", "inctplrootattr", "slotinc", "slotincplain", "slotprop", "layout", "layoutattr", "ifself", "elseself"}
+var sinks = []string{"in:textarea", "in:title", "in:pre", "in:option", "in:td", "in:li", "in:button", "in:h1", "in:a", "in:label", "in:code", "in:summary", "in:noscript", "in:xmp", "in:iframe", "in:noembed", "in:noframes", "nsattr", "pretext", "prevtext", "preattr", "prebound", "text", "vtext", "attr", "bound", "vbind", "class", "style", "loop", "loopattr", "loopchild", "incstatic", "incbound", "incattr", "inctplroot", "inctplrootattr", "slotinc", "slotincplain", "slotprop", "layout", "layoutattr", "ifself", "elseself"}
 var encs = []string{"bare", "if", "else", "tplif", "nested", "loopchild", "elseif"}
 
 // tokens: the hostile alphabet. The first coreN are enumerated exhaustively.
@@ -186,6 +186,15 @@ func build(c Case) program {
 
 func buildSink(c Case, n nb) program {
 	switch c.Sink {
+	case "pretext":
+		// sinks inside a <pre> that has element children (written by the preformatted writer)
+		return program{tpl: wrap(c.Enc, `<pre>a <span data-m="s">`+n.LS+`{{ v }}`+n.RS+`</span> b <b>c</b></pre>`), useNb: true}
+	case "prevtext":
+		return program{tpl: wrap(c.Enc, `<pre><code data-m="s" v-text="v">old</code> <b>c</b></pre>`)}
+	case "preattr":
+		return program{tpl: wrap(c.Enc, `<pre><span data-m="s" title="`+n.LS+`{{ v }}`+n.RS+`">x</span> <b>{{ v }}</b></pre>`), attr: "title", useNb: true}
+	case "prebound":
+		return program{tpl: wrap(c.Enc, `<pre>x <span><em data-m="s" :title="v">y</em></span> z</pre>`), attr: "title"}
 	case "nsattr":
 		// fallback markup inside <noscript>: an attribute of an element there
 		return program{tpl: wrap(c.Enc, `<noscript><img data-m="s" src="`+n.LS+`{{ v }}`+n.RS+`" alt="x"><p>{{ v }}</p></noscript>`), attr: "src", useNb: true}
